@@ -245,6 +245,8 @@ func singleMutations(ies []*node) []mutation {
 
 func c01(c *ctx) {
 	defer c01Wedge(c)
+	defer c01Bounce(c)
+	defer c01ChooseInModification(c)
 	w, err := newWorld(c, sysh.Opts{UEAlloc: true, Pool: "10.250.0.0/16", EndMarker: true, ReadTimeout: 30})
 	if err != nil {
 		panic(err)
@@ -473,6 +475,97 @@ func c01(c *ctx) {
 
 // c01Wedge: with the agent's own heartbeats enabled, response-type datagrams that answer a pending request twice, late
 // or with a foreign sequence number must not block the association's receive loop.
+// c01Bounce: the peer's socket is closed at the moment the agent answers (the answer bounces with ICMP port unreachable and
+// the agent's next read fails); the peer comes back on the same address and port and must be served as before.
+func c01Bounce(c *ctx) {
+	// the agent's own heartbeats (every 100 ms) are what bounces; the peer is back long before it would be declared dead
+	w, err := newWorld(c, sysh.Opts{HB: true, HBInterval: "100ms", RespTimeout: "500ms", MaxRetries: 5, ReadTimeout: 600})
+	if err != nil {
+		panic(err)
+	}
+	defer w.close()
+	if !w.start() {
+		return
+	}
+	for round := 0; round < c.pick(4, 40); round++ {
+		w.assoc(0)
+		p := w.peers[0]
+		p.AnswerHB = true
+		p.Idle(150 * time.Millisecond) // answers the agent's heartbeats
+		// the socket is closed while the agent's next Heartbeat Request arrives, and opened again on the same address and port
+		la := p.Conn.LocalAddr()
+		p.Conn.Close()
+		time.Sleep(180 * time.Millisecond)
+		_ = la
+		if err := p.Rebind(); err != nil {
+			c.t.Note("rebind: %v", err)
+			return
+		}
+		answered := false
+		for try := 0; try < 3 && !answered; try++ {
+			seq := p.NextSeq()
+			_ = p.SendRaw(sysh.Marshal(message.NewHeartbeatRequest(seq, ie.NewRecoveryTimeStamp(time.Unix(1700000000, 0)), nil)))
+			deadline := time.Now().Add(300 * time.Millisecond)
+			for time.Now().Before(deadline) && !answered {
+				if rr, ok := p.Recv(time.Until(deadline)); ok {
+					if m, err := message.Parse(rr); err == nil && m.MessageType() == message.MsgTypeHeartbeatResponse && m.Sequence() == seq {
+						answered = true
+					} else if err == nil && m.MessageType() == message.MsgTypeHeartbeatRequest {
+						_ = p.SendRaw(sysh.Marshal(message.NewHeartbeatResponse(m.Sequence(), ie.NewRecoveryTimeStamp(time.Unix(1700000000, 0)))))
+					}
+				}
+			}
+		}
+		c.t.Case("c01/bounce", true, "bounce => %d %d", b01(!w.s.Exited()), b01(answered))
+		if !answered {
+			return
+		}
+		w.release(0)
+	}
+}
+
+// c01ChooseInModification: a modification creates a PDR whose F-TEID asks the UP to choose (the modification handler allocates
+// nothing: the rule is stored with TEID 0), the session is deleted, and another association establishes with CHOOSE.
+func c01ChooseInModification(c *ctx) {
+	w, err := newWorld(c, sysh.Opts{ReadTimeout: 600})
+	if err != nil {
+		panic(err)
+	}
+	defer w.close()
+	if !w.start() {
+		return
+	}
+	w.wait = 1200 * time.Millisecond
+	for round := 0; round < c.pick(2, 10); round++ {
+		w.assoc(0)
+		w.assoc(1)
+		pdrs, fars, qers := w.genSession(0)
+		w.nextCP++
+		h, _ := w.est(0, w.nodes[0], w.nextCP, pdrs, fars, qers, "c01")
+		if h == nil {
+			return
+		}
+		np := sysh.PdrIE{ID: 30, Prec: 9, Src: u8p(0), Teid: u32p3(1, 0, 0), Ohr: u8p(0), Far: 1}
+		if round%2 == 0 {
+			w.mod(0, h.up, modReq{cp: []sysh.PdrIE{np}}, "c01-create-choose")
+		} else {
+			up := h.pdrs[0]
+			up.Teid = u32p3(1, 0, 0)
+			w.mod(0, h.up, modReq{up: []sysh.PdrIE{up}}, "c01-update-choose")
+		}
+		w.del(0, h.up, "c01")
+		p2, f2, q2 := w.genSession(2) // CHOOSE
+		w.nextCP++
+		_, o := w.est(1, w.nodes[1], w.nextCP, p2, f2, q2, "c01-choose-after")
+		c.t.Case("c01/choosemod", true, "choosemod => %d %d", b01(!w.s.Exited()), b01(o.N == 1))
+		if o.N != 1 {
+			return
+		}
+		w.release(0)
+		w.release(1)
+	}
+}
+
 func c01Wedge(c *ctx) {
 	iv, rt := 200*time.Millisecond, 80*time.Millisecond
 	w, err := newWorld(c, sysh.Opts{HB: true, HBInterval: iv.String(), RespTimeout: rt.String(), MaxRetries: 2, ReadTimeout: 600})
